@@ -4,10 +4,10 @@ import time
 from pv import common, gen, orch
 
 RULE = ("generated DCOPs (1-6 variables, domains 1-3, all shapes incl. several components and isolated variables, unary / "
-        "binary / ternary tables, variable costs, palettes ties/distinct/float/neg and hard (10000 = infinity, min only), "
+        "binary / ternary tables, variable costs, palettes ties/distinct/float/neg, hard and over-constrained (10000 = infinity, min only; over-constrained = 75% of the entries are 10000), "
         "min and max) solved with DPOP through run_local_thread_dcop + deploy_computations + run(timeout=20) with 1-7 "
         "thread-mode agents and distributions oneagent / adhoc / gh_cgdp (harness footprint functions) / random mappings "
-        "incl. idle agents; perturbation: switch interval 1e-5, random sleeps around every Messaging.post_msg / next_msg "
+        "incl. idle agents; perturbation: switch interval 1e-5, random sleeps around every Messaging.post_msg / next_msg incl. rare 20 ms stalls of one thread, and agents starting up to 150 ms late "
         "(thorough: sys.monitoring LINE yield injection in the infrastructure modules on half of the runs); observed where "
         "the solve command looks: orchestrator.status right after run() and end_metrics(); oracle: status OK before the "
         "orchestrator's own 20 s timer, assignment covers every variable with domain values and its cost (harness tables) "
@@ -42,6 +42,11 @@ def gen_run(rng):
     case = gen.gen_case(rng, min_vars=1, max_vars=6, max_dom=3, palettes=palettes, max_space=800)
     if case["palette"] == "hard":
         case["objective"] = "min"
+        if rng.random() < 0.5:
+            # over-constrained: most entries are the infinity, so that the optimum itself contains violated hard constraints
+            case["palette"] = "overconstrained"
+            for c in case["constraints"]:
+                c["table"] = [10000 if rng.random() < 0.75 else rng.randint(0, 5) for _ in c["table"]]
     nv = len(case["variables"])
     dist = rng.choice(DISTS)
     if dist == "oneagent":
@@ -53,7 +58,7 @@ def gen_run(rng):
 
 def check_run(case, dist, na, seed, lines):
     P = []
-    r = orch.run_orchestrated(case, "dpop", {}, na, dist, seed, timeout=T, lines=lines)
+    r = orch.run_orchestrated(case, "dpop", {}, na, dist, seed, timeout=T, lines=lines, p_long=0.02, start_delays=True)
     W = {"case": case, "dist": dist, "nagents": na, "seed": seed, "lines": lines, "mapping": r.get("mapping"),
          "status": r.get("status"), "run_wall": r.get("run_wall")}
     if "dist_error" in r:
@@ -65,8 +70,8 @@ def check_run(case, dist, na, seed, lines):
         P.append(("agent-thread-died", "orchestrator agent reported a fatal error: %s" % r["fatal"][0]))
     st = r.get("status")
     if st == "TIMEOUT" or r.get("run_wall", 0) >= T:
-        P.append(("ended-by-timeout", "run() ended with status %r after %.1f s (the orchestrator's %s s timer), mapping %r" % (
-            st, r.get("run_wall", -1), T, r.get("mapping"))))
+        P.append(("ended-by-timeout", "run() ended with status %r after %.1f s (the orchestrator's %s s timer), mapping %r, errors logged by the runtime: %r" % (
+            st, r.get("run_wall", -1), T, r.get("mapping"), r.get("log_errors"))))
         return P, W, r, "timeout"
     if st != "OK":
         P.append(("status-not-ok", "orchestrator.status == %r after run()" % (st,)))
@@ -126,10 +131,15 @@ def worker(job):
                        "palette": case["palette"], "dist": dist, "mapping": mapping, "status": r.get("status"),
                        "metrics": r.get("metrics"), "run_wall": r.get("run_wall"), "injected": r.get("injected")} if nontrivial and i % 6 == 0 else None)
         R.bump("outcomes", outcome)
+        if r.get("start_delays"):
+            R.count("agents_started_late", len(r["start_delays"]))
         R.bump("distributions", dist)
         R.bump("palettes", case["palette"])
         R.count("sleeps_injected", r.get("injected", 0))
         R.count("line_events", r.get("line_events", 0))
+        R.count("long_stalls_injected", r.get("long_sleeps", 0))
+        if r.get("metrics") and (r["metrics"].get("violation") or 0) > 0:
+            R.count("optima_with_violated_hard_constraints")
         R.count("messages_between_agents", (r.get("metrics") or {}).get("msg_count") or 0)
         seen = set()
         for k, m in P:
